@@ -1,5 +1,6 @@
 import FitModel.Items
 import FitModel.Gen.Profile
+import FitProofs.ExpandEq
 /-!
   C18 — component fields expand per profile, with per-file accumulation.
 
@@ -122,5 +123,48 @@ theorem containers_expand (P : Profile) (c : Container) (sl : List (List Msg)) (
     (hs : slotFor c m.num = some i) (he : m.num ∈ expandSet) :
     (containerAdd P c sl m g).2 = (expand P m g).2 := by
   simp [containerAdd, hs, he]
+
+/-- **lap, session and segment_lap: the transcribed expansion is the profile's rules.** For every
+    message of these kinds whose 16-bit speed / altitude sources hold 16-bit values (what the
+    decoder stores, or the constructor's invalid value), `expand` — the statement-by-statement model
+    of the generated `expandComponents` — equals the generic interpretation `expandSpec` of the
+    profile's component rules (source, destination, bit width), whatever deviations are switched on
+    (they only concern record). -/
+theorem expand_eq_rules_lap_session_segment (q : XSpec.Quirks) (P : Profile) (m : Msg) (g : Globals) (pm : PMsg)
+    (hpm : P.msg? m.num = some pm)
+    (hnum : m.num = mnSession ∨ m.num = mnLap ∨ m.num = mnSegmentLap)
+    (h1 : ∀ si, pm.idx "AvgSpeed" = some si → Src16 m si)
+    (h2 : ∀ si, pm.idx "MaxSpeed" = some si → Src16 m si)
+    (h3 : ∀ si, pm.idx "AvgAltitude" = some si → Src16 m si)
+    (h4 : ∀ si, pm.idx "MaxAltitude" = some si → Src16 m si)
+    (h5 : ∀ si, pm.idx "MinAltitude" = some si → Src16 m si) :
+    expand P m g = XSpec.expandSpec q P m g := by
+  unfold expand XSpec.expandSpec XSpec.rulesFor
+  rw [hpm]
+  simp only
+  rcases hnum with h | h | h
+  · have e1 : ¬ m.num = mnRecord := by rw [h]; decide
+    simp only [e1, ↓reduceIte, h, true_or]
+    exact (speedAlt5_eq q pm m g h1 h2 h3 h4 h5).symm
+  · have e1 : ¬ m.num = mnRecord := by rw [h]; decide
+    simp only [e1, ↓reduceIte, h, or_true]
+    exact (speedAlt5_eq q pm m g h1 h2 h3 h4 h5).symm
+  · have e1 : ¬ m.num = mnRecord := by rw [h]; decide
+    have e2 : ¬ (m.num = mnSession ∨ m.num = mnLap) := by rw [h]; decide
+    simp only [e1, e2, ↓reduceIte, h]
+    exact (segmentLap_eq q pm m g h3 h4 h5).symm
+
+/-- the hypothesis is what the decoder produces: a lap with avg_speed 1000 and the other sources
+    invalid satisfies it, and both sides put 1000 into enhanced_avg_speed (kernel-evaluated on the
+    regenerated profile) -/
+example :
+    (match Gen.profile.msg? mnLap with
+     | some pm =>
+       let m : Msg := ⟨mnLap, (pm.invalid.zipIdx.map fun (v, i) => if pm.idx "AvgSpeed" = some i then Val.u 1000 else v)⟩
+       (expand Gen.profile m {}).1 == (XSpec.expandSpec {} Gen.profile m {}).1 &&
+       (match pm.idx "EnhancedAvgSpeed" with
+        | some di => (expand Gen.profile m {}).1.vals[di]? == some (Val.u 1000)
+        | none => false)
+     | none => false) = true := by decide +kernel
 
 end Fit.Props.C18
